@@ -6,8 +6,9 @@ import hirpp
 import glob, os
 arg = sys.argv[1]
 if not os.path.isfile(arg):
-    dirs = sorted(glob.glob('/verif/.cache/facts/*/default'), key=os.path.getmtime)
-    arg = os.path.join(dirs[-1], arg + '.json')
+    sys.path.insert(0, '/verif/lib')
+    import extract
+    arg = os.path.join(extract.ensure_facts(['default'])['default'], arg + '.json')
 d = json.load(open(arg))
 pat = sys.argv[2]
 for b in d['bodies']:
